@@ -711,6 +711,31 @@ fn corpus() -> Vec<Case> {
             vec![I(0, 0), L(1, 1, 1), L(1, 2, 2), E(1), I(2, 2), L(2, 1, 1), E(2)],
             "corpus:cycle",
         ),
+        // the task's root file name is not normalised and another loaded file carries the normalised name: the code knows the
+        // root by `normalize_path(root)` (it is never "finished", `M` is not appended -> FragmentNotDefined M). The first
+        // version of `emitFiles` handed the name as supplied to `Imports.resolve` and printed a module (found by this
+        // stream as a probe; `Params.norm` repaired it; driver mutant 5 is the old behaviour).
+        mk(
+            &["/p/sub/../main.graphql", "/p/f.graphql", "/p/main.graphql"],
+            &["#import F from \"./f.graphql\"\nquery Q { ...F }\n", "#import M from \"./main.graphql\"\nfragment F on T { a ...M }\n", "fragment M on T { m }\n"],
+            vec![I(0, 0), L(1, 1, 1), L(1, 2, 2), R(1), E(1)],
+            "corpus:unnormalised-root-name",
+        ),
+        // a file supplied under a name with a `.` segment: `PathBuf` keys of `loaded_files` compare by components (`/p/./f` =
+        // `/p/f`); the driver reads the file names of a history through `Path::components` (`canonStr`)
+        mk(
+            &["/p/main.graphql", "/p/./f.graphql"],
+            &["#import F from \"./f.graphql\"\nquery Q { ...F }\n", "fragment F on T { a }\n"],
+            vec![I(0, 0), L(1, 1, 1), R(1), E(1)],
+            "corpus:dot-segment-in-a-loaded-file-name",
+        ),
+        // ... and supplied twice under two spellings of one `PathBuf`: the second supply replaces the first document
+        mk(
+            &["/p/main.graphql", "/p/./f.graphql", "/p//f.graphql"],
+            &["#import F from \"./f.graphql\"\nquery Q { ...F }\n", "fragment F on T { a }\n", "fragment F on T { b }\n"],
+            vec![I(0, 0), L(1, 1, 1), L(1, 2, 2), R(1), E(1)],
+            "corpus:one-file-under-two-spellings",
+        ),
     ];
     // the same diamond under a named-export config
     let mut c = v[0].clone();
@@ -1489,7 +1514,6 @@ fn record(rep: &mut Report, drv: &mut Driver, exe: &PathBuf, cases: &[Case], out
 /// code for reasons that are not the composition's subject. They are run and their outcome is written into the report
 /// (`extra.concrete_probes`), never as a failure.
 fn probes() -> Vec<(&'static str, Case)> {
-    use COp::*;
     let mk = |paths: &[&str], sources: &[&str], ops: Vec<COp>| Case {
         cfg: vec![],
         config_text: None,
@@ -1498,26 +1522,9 @@ fn probes() -> Vec<(&'static str, Case)> {
         ops,
         origin: "probe".into(),
     };
+    // the two probes of the first version (`unnormalised-root-name`, `dot-segment-in-a-loaded-file-name`) are corpus cases now
+    let _ = &mk;
     vec![
-        // the task's root file name is not normalised and another loaded file carries the normalised name: the code knows
-        // the root by `normalize_path(root)` (it is never "finished"), `emitFiles` hands the name as supplied to `Imports.resolve`
-        (
-            "unnormalised-root-name",
-            mk(
-                &["/p/sub/../main.graphql", "/p/f.graphql", "/p/main.graphql"],
-                &["#import F from \"./f.graphql\"\nquery Q { ...F }\n", "#import M from \"./main.graphql\"\nfragment F on T { a ...M }\n", "fragment M on T { m }\n"],
-                vec![I(0, 0), L(1, 1, 1), L(1, 2, 2), R(1), E(1)],
-            ),
-        ),
-        // a file supplied under a name with a `.` segment: `PathBuf` keys compare by components, the model's keys are strings
-        (
-            "dot-segment-in-a-loaded-file-name",
-            mk(
-                &["/p/main.graphql", "/p/./f.graphql"],
-                &["#import F from \"./f.graphql\"\nquery Q { ...F }\n", "fragment F on T { a }\n"],
-                vec![I(0, 0), L(1, 1, 1), R(1), E(1)],
-            ),
-        ),
     ]
 }
 
